@@ -156,6 +156,8 @@ type Sub struct {
 	Setup func(tier string) error
 	// Replays is how many times a witness is re-executed before it is believed (default 5).
 	Replays int
+	// HangLimit overrides the watchdog limit for one case of this sub-check (default 240 s).
+	HangLimit time.Duration
 	// Repeat executes every case twice in a row and requires identical observations
 	// (outcome labels and finding classes): the second identical call must not behave
 	// differently (a cache or memo poisoned by the first call).
@@ -234,6 +236,28 @@ func loadKnown(prop string) (map[string]KnownEntry, error) {
 		}
 	}
 	return res, nil
+}
+
+// hangLimit is how long one case may run before the watchdog gives up on it.
+func hangLimit(sub *Sub) time.Duration {
+	if s := os.Getenv("VERIF_HANG_S"); s != "" {
+		var n int
+		fmt.Sscanf(s, "%d", &n)
+		if n > 0 {
+			return time.Duration(n) * time.Second
+		}
+	}
+	if sub.HangLimit > 0 {
+		return sub.HangLimit
+	}
+	return 240 * time.Second
+}
+
+// HangHandler is called (from the watchdog goroutine) when a case does not come back. The default
+// reports a harness error and exits 2; a check whose property includes termination (C09) replaces it.
+var HangHandler = func(sub *Sub, caseJSON string, limit time.Duration) {
+	fmt.Fprintf(os.Stderr, "harness error: case %s of sub-check %s did not finish within %s (the code under test or the harness hangs)\n", caseJSON, sub.Name, limit)
+	os.Exit(2)
 }
 
 // Deadline per tier; may be overridden with VERIF_DEADLINE_S.
@@ -668,6 +692,12 @@ func runSub(sub *Sub, tier string, deadline time.Time) (subStats, []any, map[str
 		}
 	}
 	workers := runtime.GOMAXPROCS(0)
+	if w := os.Getenv("VERIF_WORKERS"); w != "" {
+		fmt.Sscanf(w, "%d", &workers)
+		if workers < 1 {
+			workers = 1
+		}
+	}
 	if sub.Serial {
 		workers = 1
 	}
@@ -676,7 +706,38 @@ func runSub(sub *Sub, tier string, deadline time.Time) (subStats, []any, map[str
 	ctxs := make([]*Ctx, workers)
 	var wg sync.WaitGroup
 	var panicked atomic.Value
+	// Watchdog: a case that does not come back is a hang of the code under test (or of the harness).
+	// It cannot be recovered from inside the process; the run ends there with a report (HangHandler).
+	type inflight struct {
+		since atomic.Int64 // unix nanos when the worker picked up its current case; 0 = idle
+		cas   atomic.Value
+	}
+	fl := make([]*inflight, workers)
+	stopWatch := make(chan struct{})
+	defer close(stopWatch)
+	limit := hangLimit(sub)
+	for w := range fl {
+		fl[w] = &inflight{}
+	}
+	go func() {
+		t := time.NewTicker(2 * time.Second)
+		defer t.Stop()
+		for {
+			select {
+			case <-stopWatch:
+				return
+			case <-t.C:
+				for _, f := range fl {
+					if s := f.since.Load(); s != 0 && time.Since(time.Unix(0, s)) > limit {
+						cb, _ := json.Marshal(f.cas.Load())
+						HangHandler(sub, string(cb), limit)
+					}
+				}
+			}
+		}
+	}()
 	for w := 0; w < workers; w++ {
+		w := w
 		ctx := newCtx(tier)
 		ctxs[w] = ctx
 		wg.Add(1)
@@ -684,7 +745,10 @@ func runSub(sub *Sub, tier string, deadline time.Time) (subStats, []any, map[str
 			defer wg.Done()
 			for b := range ch {
 				for _, it := range b {
+					fl[w].cas.Store(it.c)
+					fl[w].since.Store(time.Now().UnixNano())
 					func() {
+						defer fl[w].since.Store(0)
 						defer func() {
 							if r := recover(); r != nil {
 								buf := make([]byte, 4096)
